@@ -12,7 +12,7 @@ from pyvc.vals import Val, NONE, I, B, R, Z, ref, fresh, cls_of, ArgPack, Cls, S
 from pyvc.verify import Unit, sym_inst, sym_val, user_calls
 from pyvc.symexec import Raise, LoopSpec
 from pyvc.state import Event
-from .base import make_cfg, FIELD_TYPES, INST, OPT, RecordCall
+from .base import make_cfg, FIELD_TYPES, INST, OPT, RecordCall, decided, local
 
 
 class IterContract(object):
@@ -67,7 +67,7 @@ def _loop_cfg(loop_qn, iter_qn, stop_value):
 
 
 def ctx_ref(engine, st, fr):
-    wr = st.envs[fr.eid]["executor_ref"]
+    wr = local(engine, st, fr, "$arg#0", "executor_ref")
     return st.get("$referent", Val.id(wr.t))
 
 
@@ -124,7 +124,7 @@ def _post_wrap(engine, st, ctx, out):
     if isinstance(out, Raise):
         cl.append(("an exception is re-raised unchanged (the thread ends with the loop's own error)", "PC", engine.to_val(st, out.exc) == ev.exc, ["C18"]))
     else:
-        msg_checked = any(a == "'cannot schedule new futures after' in str(error)" and b for a, b in st.decisions)
+        msg_checked = decided(engine, st, "helpers.executor_loop.out", "'cannot schedule new futures after' in str({$except#0|error})", True)
         cl.append(("only a RuntimeError whose text says 'cannot schedule new futures after ...' (interpreter shutting down) is swallowed", "PC",
                    z3.And(rt, engine.to_val(st, out) == NONE, z3.BoolVal(msg_checked)), ["C18", "C11"]))
     return cl
